@@ -78,9 +78,19 @@ def check_backward(ctx: Ctx, P):
         return
     # property level: defaulted call == explicit call with the leaves the tensors were computed from
     set_pre(P, ts, pre, torch.float64)
+    # the ways `tensors` may be handed over: a list, or one bare tensor (0-d included); and the ambient grad mode must
+    # not matter (the graph already exists: torch.autograd differentiates it inside torch.no_grad() just the same)
+    bare = len(tensors) == 1 and rng.random() < 0.5
+    nograd = rng.random() < 0.2
+    ctx.count("tensors_passed_as", "bare tensor" if bare else "list")
+    ctx.count("inside_no_grad", nograd)
+    rp.update({"tensors_passed_bare": bare, "inside_torch_no_grad": nograd})
+    import contextlib
+    mode = torch.no_grad if nograd else contextlib.nullcontext
     e1 = None
     try:
-        backward([ts[i] for i in tensors], make_agg(agg, torch.float64))
+        with mode():
+            backward(ts[tensors[0]] if bare else [ts[i] for i in tensors], make_agg(agg, torch.float64))
     except Exception as e:  # noqa: BLE001
         e1 = classify_exc(e)
     g1 = grads_of(ts, report)
@@ -88,7 +98,9 @@ def check_backward(ctx: Ctx, P):
     set_pre(P, ts2, pre, torch.float64)
     e2 = None
     try:
-        backward([ts2[i] for i in tensors], make_agg(agg, torch.float64), inputs=[ts2[i] for i in expected])
+        with mode():
+            backward(ts2[tensors[0]] if bare else [ts2[i] for i in tensors], make_agg(agg, torch.float64),
+                     inputs=[ts2[i] for i in expected])
     except Exception as e:  # noqa: BLE001
         e2 = classify_exc(e)
     g2 = grads_of(ts2, report)
@@ -103,6 +115,10 @@ def check_backward(ctx: Ctx, P):
 
 def check_mtl(ctx: Ctx, M):
     rng, P = ctx.rng, M.P
+    if rng.random() < 0.15:
+        # the same loss tensor listed twice (two objectives that happen to coincide): two rows, two task groups
+        M.losses = list(M.losses) + [rng.choice(M.losses)]
+        ctx.count("mtl_duplicate_loss")
     T = len(M.losses)
     agg = ("const", [rng.randint(-5, 7) for _ in range(T)])
     pre = rand_pre(rng, P, P.leaves())
